@@ -462,6 +462,47 @@ def c14(ctx):
                           "(thorough: every byte boundary of short tails, 16 sampled cuts of long ones); Open must "
                           "succeed and every acknowledged commit must be visible")
     ctx.assumptions += ["directory operations are ordered and durable; no reordering inside a file beyond prefix truncation"]
+    # the fsync discipline on the system calls the process really made (hooks cannot misreport these)
+    import straceparse
+
+    def audit(i):
+        d = os.path.join(ctx.scratch, "fsa-%d" % i)
+        os.makedirs(d, exist_ok=True)
+        log = os.path.join(ctx.scratch, "fsa-%d.strace" % i)
+        cmd = ["strace", "-f", "-y", "-s", "80", "-e", "trace=write,pwrite64,fsync,fdatasync,rename,renameat,renameat2,"
+               "unlink,unlinkat,openat", "-o", log, drv, "fsaudit", "-dir", d, "-seed", str(ctx.seed * 10 + i), "-n", "40"]
+        p = subprocess.run(cmd, env=common.go_env(), stdout=subprocess.PIPE, stderr=subprocess.STDOUT, text=True, timeout=600)
+        if p.returncode != 0:
+            hf = common.hard_failures(p.stdout)
+            if hf:
+                rp = ctx.save_replay("c14-fsaudit-%s-%d.txt" % (hf[0][0], i), [hf[0][1]])
+                ctx.violation(rp, "%s during the fsync audit workload: %s" % hf[0], match={"kind": hf[0][0]})
+                return 0
+            raise Machinery("fsaudit under strace failed: " + p.stdout[-1500:])
+        ev = straceparse.parse(log, d)
+        if sum(1 for e in ev if e["ev"] == "fsync") == 0 and sum(1 for e in ev if e["ev"] == "ack") == 0:
+            raise Machinery("strace log has no fsync/ack events: tracing does not work here")
+        tp = os.path.join(ctx.scratch, "fsa-%d.ndjson" % i)
+        straceparse.write_trace(ev, tp)
+        r = tlc.validate_trace("TraceFs", open(os.path.join(tlc.SPECS, "TraceFs.cfg")).read(), tp)
+        ctx.states += r["distinct"]
+        ctx.transitions += r["states"]
+        if r["machinery_error"]:
+            raise Machinery("TraceFs validation failed to run: " + r["out"][-1500:])
+        if not r["accepted"]:
+            lines = open(tp).read().splitlines()
+            rp = ctx.save_replay("c14-fsaudit-%d.fstrace.ndjson" % i, lines)
+            shutil.copy(log, rp.replace(".fstrace.ndjson", ".strace.log"))
+            ctx.violation(rp, "the system calls of the engine break the durability discipline (TraceFs.tla) at call %d: %s "
+                              "(preceding: %s)" % (r["highwater"], lines[r["highwater"] - 1],
+                                                   " ; ".join(lines[max(0, r["highwater"] - 4):r["highwater"] - 1])),
+                          match={"kind": "fs-discipline"})
+            return 0
+        return len(ev)
+
+    audited = ctx.par(audit, range(2 if ctx.quick else 8), workers=4)
+    ctx.traces_impl += sum(1 for a in audited if a)
+    ctx.cov["fsync_audit_syscalls_checked"] = sum(audited)
 
 
 # --------------------------------------------------------------------------- C13
@@ -703,6 +744,14 @@ def replay(ctx, path):
             print("  rejected at event %d: %s" % (rej[0]["rel"], json.dumps(rej[0]["event"])))
             return 1
         print("replay accepted (%d events)" % n)
+        return 0
+    if path.endswith(".fstrace.ndjson"):
+        r = tlc.validate_trace("TraceFs", open(os.path.join(tlc.SPECS, "TraceFs.cfg")).read(), path)
+        if not r["accepted"]:
+            print("VIOLATION property=%s replay=%s" % (ctx.id, path))
+            print("  rejected at call %d" % r["highwater"])
+            return 1
+        print("replay accepted")
         return 0
     if path.endswith(".lktrace.ndjson"):
         cfg = open(os.path.join(tlc.SPECS, "TraceLookup.cfg")).read()
